@@ -28,4 +28,7 @@ StepsR    == [a |-> 5, b |-> 5, r |-> 2]
 StepsD    == [d |-> 2, w |-> 5]
 StepsC    == [F |-> 4, w1 |-> 5]
 StepsW6   == [w1 |-> 5, w2 |-> 6]
+\* with the read-path points on: insert = 7 grants (start + 5 write points + snapshot store),
+\* query = 1 more; a second client that only queries
+StepsRR   == [c1 |-> 9, c2 |-> 3]
 =============================================================================
